@@ -26,8 +26,8 @@ void vp_store (nsync_atomic_uint32_ *p, uint32_t v, int order);
 #define ATM_CAS_REL(p,o,n)       vp_cas ((p), (o), (n), VP_REL)
 #define ATM_CAS_RELACQ(p,o,n)    vp_cas ((p), (o), (n), VP_ACQREL)
 
-#define ATM_LOAD(p)         vp_load ((p), VP_RLX)
-#define ATM_LOAD_ACQ(p)     vp_load ((p), VP_ACQ)
+#define ATM_LOAD(p)         vp_load ((nsync_atomic_uint32_ *) (p), VP_RLX)
+#define ATM_LOAD_ACQ(p)     vp_load ((nsync_atomic_uint32_ *) (p), VP_ACQ)
 
 #define ATM_STORE(p,v)      vp_store ((p), (v), VP_RLX)
 #define ATM_STORE_REL(p,v)  vp_store ((p), (v), VP_REL)
